@@ -16,7 +16,8 @@ def scenarios(ctx):
 
 def jobs(ctx):
     js = []
-    for sc in scenarios(ctx).values():
+    for i, sc in enumerate(scenarios(ctx).values()):
+        sc.witness = (i < 4) or ctx.tier == 'thorough'
         js += e3.make_jobs(ctx, sc)
     js.append(e3.smoke_job(ctx, scenarios(ctx)['mu_w_r_R3']))
     return js
@@ -42,3 +43,4 @@ FUNCS = ['nsync_mu_lock', 'nsync_mu_rlock', 'nsync_mu_trylock', 'nsync_mu_rtrylo
          'nsync_mu_unlock_slow_', 'nsync_mu_wait_with_deadline', 'mu_try_acquire_after_timeout_or_cancel', 'nsync_cv_wait_with_deadline_generic', 'nsync_cv_signal', 'nsync_cv_broadcast', 'wake_waiters']
 OUTSIDE = ['nsync_wait_n re-acquisition (it calls the caller-supplied lock function: covered as nsync_mu_lock)', 'environment changes beyond 3 per call in the step check',
            'queue changes by the environment while the function does not hold the spinlock (the queue of <= 2 waiters is fixed per call)']
+WORKERS = 5     # each query needs 2-10 GB (cbmc + kissat): bounded parallelism keeps the machine out of swap / the OOM killer
